@@ -262,8 +262,26 @@ var interline = regexp.MustCompile(`\n[ \t]*(//[^\n]*|/\*[^*]*\*/)[ \t\r]*\n[ \t
 var pool = []string{`"a"`, `"A"`, `"\u0041"`, `"a.b"`, `"1"`, `"1.5"`, `"true"`, `"null"`, `"1e5"`, `"-"`, `""`, `1`, `1.0`, `1.00`, `-0`, `0`, `2.5`, `true`, `false`, `null`, `"x y"`, `"q\"r"`, `"a\/b"`, `"a/b"`, `"é"`, `"[1]"`, `"//"`}
 var probes = []string{`"zz"`, `7`, `"a"`, `"A"`, `1`, `1.0`, `true`, `null`, `"1"`, `0`}
 
+// genNumber: number literals of any size - an enum value is compared as a decimal number, not as a
+// machine integer or float
+var genNumber = rapid.Custom(func(t *rapid.T) string {
+	switch rapid.IntRange(0, 4).Draw(t, "numkind") {
+	case 0:
+		return rapid.SampledFrom([]string{"9223372036854775807", "9223372036854775808", "-9223372036854775808", "-9223372036854775809",
+			"18446744073709551615", "18446744073709551616", "4294967296", "2147483648", "9007199254740993", "100000000000000000000"}).Draw(t, "edge")
+	case 1:
+		return rapid.SampledFrom([]string{"", "-"}).Draw(t, "sign") + rapid.StringMatching(`[1-9][0-9]{17,30}`).Draw(t, "digits")
+	case 2:
+		return rapid.SampledFrom([]string{"", "-"}).Draw(t, "sign") + rapid.StringMatching(`[1-9][0-9]{0,25}\.[0-9]{1,25}`).Draw(t, "frac")
+	case 3:
+		return rapid.SampledFrom([]string{"", "-"}).Draw(t, "sign") + rapid.StringMatching(`0\.0{0,20}[1-9]{1,3}0{0,3}`).Draw(t, "small")
+	default:
+		return rapid.SampledFrom([]string{"", "-"}).Draw(t, "sign") + rapid.StringMatching(`(0|[1-9][0-9]{0,3})(\.[0-9]{1,3})?`).Draw(t, "plain")
+	}
+})
+
 func genCase(t *rapid.T) Case {
-	items := rapid.SliceOfN(rapid.SampledFrom(pool), 0, 6).Draw(t, "items")
+	items := rapid.SliceOfN(rapid.OneOf(rapid.SampledFrom(pool), rapid.SampledFrom(pool), rapid.SampledFrom(pool), genNumber), 0, 6).Draw(t, "items")
 	if rapid.IntRange(0, 2).Draw(t, "dedupe") > 0 {
 		seen := map[string]bool{}
 		var out []string
